@@ -254,7 +254,9 @@ theorem run_state {s : State} (h : WF s) (r : ReadOp) :
     · split
       · exact Or.inr rfl
       · exact Or.inl rfl
-    · split <;> exact Or.inl rfl
+    · split
+      · exact Or.inl rfl
+      · split <;> exact Or.inl rfl
   | path p => exact Or.inl rfl
   | cbd n b => exact Or.inl rfl
   | isomorphic g1 g2 d => exact Or.inl rfl
@@ -298,21 +300,26 @@ theorem matching_cc (s : State) (pat : Pat) (c : Option GName) :
   unfold State.matching
   rw [effective_cc, contextsCall_quads]
 
-theorem loadDefault_congr {a b : State} (h : a.quads = b.quads) : ∀ (gs : List GName) (acc : List Triple),
-    loadDefault a acc gs = loadDefault b acc gs
+/-- the query context only reads the quads of the queried dataset -/
+theorem qInit_congr {a b : State} (h : a.quads = b.quads) (lg : Bool) (docs : GName → Option (List Triple)) :
+    ∀ (cs : List Clause) (c : QCtx), qInit a lg docs c cs = qInit b lg docs c cs
   | [], _ => rfl
-  | g :: gs, acc => by
-    unfold loadDefault
+  | .dflt g :: cs, c => by
+    unfold qInit
     rw [h]
-    exact loadDefault_congr h gs _
-
-theorem loadNamed_congr {a b : State} (h : a.quads = b.quads) : ∀ (gs : List GName) (scr : State),
-    loadNamed a scr gs = loadNamed b scr gs
-  | [], _ => rfl
-  | g :: gs, scr => by
-    unfold loadNamed
+    split
+    · split
+      · rfl
+      · exact qInit_congr h lg docs cs _
+    · exact qInit_congr h lg docs cs _
+  | .named g :: cs, c => by
+    unfold qInit
     rw [h]
-    exact loadNamed_congr h gs _
+    split
+    · split
+      · rfl
+      · exact qInit_congr h lg docs cs _
+    · exact qInit_congr h lg docs cs _
 
 theorem readTriples4_eq {s : State} (h : WF s) (pat : Pat) (c : CtxArg) :
     s.readTriples4 pat c
@@ -383,10 +390,12 @@ theorem run_out_cc {s : State} (h : WF s) (r : ReadOp) :
     simp only [State.run, readQuads4_out h, readQuads4_out h', contextsCall_quads]
   | query q =>
     simp only [State.run, State.query, contextsCall_idem_fst, contextsCall_idem_snd, visible_cc,
-      loadDefault_congr (contextsCall_quads s), loadNamed_congr (contextsCall_quads s)]
+      qInit_congr (contextsCall_quads s)]
     split
     · split <;> rfl
-    · split <;> rfl
+    · split
+      · rfl
+      · split <;> rfl
   | path p => simp only [State.run, visible_cc]
   | cbd n b => simp only [State.run, visible_cc]
   | isomorphic g1 g2 d => simp only [State.run, contextsCall_quads]
